@@ -56,6 +56,77 @@ fn bind(root: &'static str) -> CallFn {
     })
 }
 
+/// The handlers behind a real `App` (threaded runtime, with and without a connection timeout): files of every size
+/// fetched over a socket by a client that may stall before reading must arrive intact.
+fn over_the_wire(r: &mut hvcommon::report::Report, tree: &staticlab::Tree, root: &'static str, seed: u64) {
+    use hvcommon::httplab::Conn;
+    use hvcommon::json::J;
+    use std::io::Write;
+    use std::time::Duration;
+    let mut rng = hvcommon::rng::Rng::derive(seed, 0x06ee);
+    for timeout in [None, Some(Duration::from_millis(250))] {
+        let port = hvcommon::net::free_port("127.0.0.1");
+        let addr: std::net::SocketAddr = format!("127.0.0.1:{}", port).parse().unwrap();
+        let (tx, rx) = std::sync::mpsc::channel();
+        let app: humphrey::App<()> = humphrey::App::new_with_config(2, ()).with_path_aware_route("/d/*", serve_dir(root)).with_route("/*", serve_as_file_path(root)).with_connection_timeout(timeout).with_shutdown(rx);
+        std::thread::spawn(move || {
+            let _ = app.run(addr);
+        });
+        for _ in 0..400 {
+            if std::net::TcpStream::connect(addr).is_ok() {
+                break;
+            }
+            std::thread::sleep(Duration::from_millis(5));
+        }
+        // the two large files and three small ones, each through serve_dir (percent-encoded) and serve_as_file_path (raw)
+        let mut picks: Vec<&(String, Vec<u8>)> = tree.files.iter().filter(|f| f.1.len() > (1 << 20)).collect();
+        for _ in 0..3 {
+            picks.push(&tree.files[rng.usize(tree.files.len())]);
+        }
+        for (rel, content) in picks {
+            if rel.contains("..") || rel.contains(':') || rel.contains(['?', '#', ' ', '%']) || !rel.is_ascii() {
+                continue;
+            }
+            for prefix in ["/d/", "/"] {
+                // a blocked write makes partial progress on its first attempts: a write timeout needs several periods to cut it
+                let stall = if content.len() > (1 << 20) { if timeout.is_some() { 1500 } else { 300 } } else { 0 };
+                r.eval();
+                r.count("over_the_wire_requests", 1);
+                let uri = format!("{}{}", prefix, rel);
+                let what = format!("GET {} ({} bytes; app connection timeout {:?}; client starts reading after {} ms)", uri, content.len(), timeout, stall);
+                let ex = J::obj(vec![("uri", J::s(&uri)), ("file_bytes", J::u(content.len() as u64)), ("connection_timeout_ms", timeout.map(|t| J::u(t.as_millis() as u64)).unwrap_or(J::Null)), ("client_stall_ms", J::u(stall))]);
+                let replay = vec!["c06".to_string(), "--seed".into(), seed.to_string()];
+                // a small, fixed receive buffer (no auto-tuning): what the stalled client does not read stays in the
+                // server's send buffer, so large responses make the server's write block
+                let sock = socket2::Socket::new(socket2::Domain::IPV4, socket2::Type::STREAM, None).and_then(|s| {
+                    s.set_recv_buffer_size(32 * 1024)?;
+                    s.connect_timeout(&addr.into(), Duration::from_secs(5))?;
+                    Ok(s)
+                });
+                let mut c = match sock {
+                    Ok(s) => Conn { s: s.into(), buf: Vec::new(), eof: false, reset: false },
+                    Err(e) => {
+                        r.inconclusive(format!("cannot connect to the C06 wire app: {}", e));
+                        continue;
+                    }
+                };
+                if c.s.write_all(format!("GET {} HTTP/1.1\r\nHost: hv\r\nConnection: close\r\n\r\n", uri).as_bytes()).is_err() {
+                    r.inconclusive("cannot send to the C06 wire app");
+                    continue;
+                }
+                std::thread::sleep(Duration::from_millis(stall));
+                match c.read_response(Duration::from_secs(30)) {
+                    Ok(Some(m)) if m.status() == 200 && m.body == *content => r.count("over_the_wire_files_intact", 1),
+                    Ok(Some(m)) => r.violation("C06/wire:not-intact", format!("{}: status {}, {} body bytes, content {}", what, m.status(), m.body.len(), if m.body == *content { "equal" } else { "differs" }), ex, replay),
+                    Ok(None) => r.violation("C06/wire:not-intact", format!("{}: no response", what), ex, replay),
+                    Err(e) => r.violation("C06/wire:not-intact", format!("{}: response incomplete: {}", what, e.chars().take(120).collect::<String>()), ex, replay),
+                }
+            }
+        }
+        tx.send(()).ok();
+    }
+}
+
 pub fn main(args: &Args) {
-    staticlab::run(args, &[Handler::ServeDir, Handler::ServeAsFilePath, Handler::Directory], bind, "", "threaded");
+    staticlab::run(args, &[Handler::ServeDir, Handler::ServeAsFilePath, Handler::Directory], bind, "", "threaded", Some(over_the_wire));
 }
